@@ -450,6 +450,7 @@ func runC17(c *Ctx) {
 		}
 	}
 	c.verdictIf(started, P, "idle", "fn=Listen starts-reaper", "", "Listen starts idleConnectionCleanupLoop", "Listen never starts the idle-connection reaper")
+	runC17IdleExempt(c, ci)
 }
 
 func isDeferInstr(in ssa.Instruction) bool { _, ok := in.(*ssa.Defer); return ok }
